@@ -1105,6 +1105,9 @@ namespace adept {
     if (offdiag >= 0) {
       Index new_dim = std::min(dims[0], dims[1]-offdiag);
       Array<1,Type,E::is_active> v(new_dim);
+      if (new_dim > 0) {
+	ADEPT_ACTIVE_STACK->check_space(E::n_active * new_dim);
+      }
       for (int j = 0; j < new_dim; ++j) {
 	i[0] = j;
 	i[1] = j+offdiag;
@@ -1117,6 +1120,9 @@ namespace adept {
     else {
       Index new_dim = std::min(dims[0]+offdiag, dims[1]);
       Array<1,Type,E::is_active> v(new_dim);
+      if (new_dim > 0) {
+	ADEPT_ACTIVE_STACK->check_space(E::n_active * new_dim);
+      }
       for (int j = 0; j < new_dim; ++j) {
 	i[0] = j;
 	i[1] = j+offdiag;
